@@ -16,7 +16,7 @@ import vcommon
 from vcommon import VERIF
 
 PROPS = ["Bee2V/C01/Props.lean"]
-for _f in ("PropsModes", "PropsStream", "PropsAead", "PropsWbl", "PropsFmt", "PropsLcl", "PropsSpec", "PropsChunk"):
+for _f in ("PropsModes", "PropsStream", "PropsAead", "PropsWbl", "PropsFmt", "PropsLcl", "PropsSpec", "PropsChunk", "PropsFmt2"):
     if os.path.exists(os.path.join(VERIF, "lean", "Bee2V", "C01", _f + ".lean")) and _f not in os.environ.get("C01_SKIP_PROPS", "").split(","):
         PROPS.append("Bee2V/C01/%s.lean" % _f)
 
@@ -468,6 +468,8 @@ KAT = [  # appendix vectors of STB 34.101.31 as used in test/crypto/belt_test.c 
     ("krp %s 16 %s %s" % (K1, "01" + "00" * 11, _h(32, 16)), "ok 6bbbc2336670d31ab83daa90d52c0541"),
     ("krp %s 32 %s %s" % (K1, "01" + "00" * 11, _h(32, 16)), "ok 76e166e6ab21256b6739397b672b879614b81cf05955fc3ab09343a745c48f77"),
     ("hmac %s %s" % (_h(128, 29), _h(192, 32)), "ok d4828e6312b08bb83c9fa6535a4635549e411fd11c0d8289359a1130e930676b"),
+    ("hmac %s %s" % (_h(128, 32), _h(192, 32)), "ok 41ffe8645aec0612e952d2cdf8dd508f3e4a1d9b53f6a1db293b19fe76b1879f"),
+    ("hmac %s %s" % (_h(128, 42), _h(192, 32)), "ok 7d01b84d2315c332277b3653d7ec64707eba7cdff7ff70077b1decbd68f2a144"),
     ("bde E %s %s %s" % (K1, IV1, _h(0, 48)), "ok e9cab32d879cc50c10378eb07c10f26307257e2dbe2b854cbc9f38282d59d6a77f952001c5d1244f53210a27c216d4bb"),
     ("bde D %s %s %s" % (K2, IV2, _h(64, 48)), "ok 7041bc226352c706d00ea8ef23cfe46afae118577d037facdc36e4ecc1f6574609f236943fb809e1bee4a1c686c13acc"),
     ("sde E %s %s %s" % (K1, IV1, _h(0, 48)), "ok 1fcbb01852003d60b66024c508608baa2c21af1e884cf31154d3077d4643cf2249eb2f5a68e4ba019d90211a81d690d9"),
@@ -488,7 +490,7 @@ def roundtrip_ops(ctx, g, n):
         k, iv = g.key(), g.rb(16)
         kind = rng.choice(["ecb", "cbc", "cfb", "ctr", "bde", "sde", "kwp", "dwp", "che", "fmt", "wbl"])
         if kind in ("ecb", "cbc"):
-            m = g.rb(rng.randint(16, 100))
+            m = g.rb(rng.choice([16, 17, 31, 32, 33, 47, 48, rng.randint(16, 100)]))
             if kind == "ecb":
                 cases.append(("ecb E %s %s" % (hx(k), hx(m)), lambda o, k=k: "ecb D %s %s" % (hx(k), o.split()[1]), "ok " + hx(m), kind))
             else:
@@ -500,10 +502,10 @@ def roundtrip_ops(ctx, g, n):
             m = g.rb(rng.randint(0, 100))
             cases.append(("ctr %s %s %s" % (hx(k), hx(iv), hx(m)), lambda o, k=k, iv=iv: "ctr %s %s %s" % (hx(k), hx(iv), o.split()[1]), "ok " + hx(m), kind))
         elif kind in ("bde", "sde"):
-            m = g.rb(16 * rng.randint(2, 8))
+            m = g.rb(16 * rng.choice([2, 3, 4, 5, 6, rng.randint(2, 12)]) if kind == "sde" else 16 * rng.randint(1, 8))
             cases.append(("%s E %s %s %s" % (kind, hx(k), hx(iv), hx(m)), lambda o, k=k, iv=iv, kind=kind: "%s D %s %s %s" % (kind, hx(k), hx(iv), o.split()[1]), "ok " + hx(m), kind))
         elif kind == "kwp":
-            m = g.rb(rng.randint(16, 150))
+            m = g.rb(rng.choice([16, 17, 31, 32, 47, 48, 49, 63, 64, 65, 80, rng.randint(16, 150)]))
             hdr = rng.choice(["N", hx(g.rb(16)), "00" * 16])
             cases.append(("kwp W %s %s %s" % (hx(k), hdr, hx(m)), lambda o, k=k, hdr=hdr: "kwp U %s %s %s" % (hx(k), hdr, o.split()[1]), "ok " + hx(m), kind))
         elif kind in ("dwp", "che"):
@@ -522,7 +524,50 @@ def roundtrip_ops(ctx, g, n):
     return cases
 
 
-def search(ctx, exe, w, n=150, focus=None):
+def admissible(op):
+    """For a high-level op: True if the property calls the input admissible (must be accepted), False if it must be
+    rejected with bad_input, None if not covered here."""
+    t = op.split()
+    def n(x): return 0 if x == "-" else len(x) // 2
+    try:
+        f = t[0]
+        if f in ("ecb", "cbc", "cfb", "bde", "sde"):
+            key, src = t[2], t[-1]
+            kl, ln = n(key), n(src)
+            ok = kl in (16, 24, 32)
+            if f in ("ecb", "cbc"):
+                ok = ok and ln >= 16
+            if f == "bde":
+                ok = ok and ln >= 16 and ln % 16 == 0
+            if f == "sde":
+                ok = ok and ln >= 32 and ln % 16 == 0
+            return ok
+        if f == "ctr":
+            return n(t[1]) in (16, 24, 32)
+        if f == "mac":
+            return n(t[1]) in (16, 24, 32)
+        if f == "kwp" and t[1] == "W":
+            return n(t[2]) in (16, 24, 32) and n(t[4]) >= 16
+        if f in ("dwp", "che") and t[1] == "W":
+            return n(t[2]) in (16, 24, 32)
+        if f == "fmt":
+            mod, cnt = int(t[2]), n(t[5]) // 2
+            if 2 <= mod <= 65536 and cnt >= 2 and n(t[3]) in (16, 24, 32):
+                return True if cnt <= 600 else None
+            return False
+        if f == "krp":
+            m, kn = int(t[2]), n(t[1])
+            return m in (16, 24, 32) and kn in (16, 24, 32) and m <= kn
+        if f in ("hash", "hmac"):
+            return True
+        if f == "pbkdf":
+            return int(t[2]) > 0
+    except Exception:
+        return None
+    return None
+
+
+def search(ctx, exe, w, n=150, focus=None, differing=()):
     """Property tests on the implementation alone.  Returns list of (key, replay_text, description)."""
     g = Gen(ctx, exe, w)
     rng = ctx.rng
@@ -540,6 +585,13 @@ def search(ctx, exe, w, n=150, focus=None):
             out = list(out[:k]) + ["CRASH"] + rest
         return out
 
+    # 0. the differing ops themselves: an admissible input that is rejected (or the converse) is a failure of the property
+    for op, c_out in list(differing)[:200]:
+        a = admissible(op)
+        if a is True and not c_out.startswith("ok"):
+            found.append(("admissible:" + op.split()[0], "expect\n%s\nok\n" % op, "admissible input not accepted: %s -> %s" % (op[:160], c_out[:80])))
+        elif a is False and not c_out.startswith("bad_input"):
+            found.append(("inadmissible:" + op.split()[0], "expect\n%s\nbad_input\n" % op, "inadmissible input not rejected with ERR_BAD_INPUT: %s -> %s" % (op[:160], c_out[:80])))
     # 1. appendix vectors
     outs = run([k for k, _ in KAT])
     for (op, exp), o in zip(KAT, outs):
@@ -576,7 +628,9 @@ def search(ctx, exe, w, n=150, focus=None):
                 tok[rng.randrange(len(tok))] ^= 1 << rng.randrange(8)
                 parts = c[0].split()
                 forged.append(("kwp U %s %s %s" % (parts[2], parts[3], tok.hex()), "bad_keytoken", c[3]))
-                forged.append(("kwp U %s %s %s" % (hx(g.key(len(bytes.fromhex(parts[2])))), parts[3], t[1]), "bad_keytoken", c[3]))
+                fk = bytearray.fromhex(parts[2])
+                fk[rng.randrange(len(fk))] ^= 1 << rng.randrange(8)          # a different key of the same length
+                forged.append(("kwp U %s %s %s" % (fk.hex(), parts[3], t[1]), "bad_keytoken", c[3]))
             else:
                 parts = c[0].split()
                 mac = bytearray.fromhex(t[2])
@@ -591,6 +645,19 @@ def search(ctx, exe, w, n=150, focus=None):
                 else:
                     ad[rng.randrange(len(ad))] ^= 1 << rng.randrange(8)
                 forged.append(("%s U %s %s %s %s %s" % (c[3], parts[2], parts[3], hx(bytes(tok)), hx(bytes(ad)), mac.hex()), "bad_mac", c[3]))
+    # 3b. the tag of Wrap equals the tag of the Step-level interface fed with fragments of AD and ciphertext
+    stag = []
+    for i, (c, o) in enumerate(zip(cases, o1)):
+        if c[3] in ("dwp", "che") and o.startswith("ok "):
+            t, parts = o.split(), c[0].split()
+            ct = bytes.fromhex(t[1]) if t[1] != "-" else b""
+            ad = bytes.fromhex(parts[5]) if parts[5] != "-" else b""
+            toks = ["I" + hx(x) for x in g.split(ad, maxparts=3)] + ["A" + hx(x) for x in g.split(ct, maxparts=4)] + ["G"]
+            stag.append(("%sS %s %s %s" % (c[3], parts[2], parts[3], " ".join(toks)), t[2], c[0]))
+    for (op, tag, wop), o in zip(stag, run([x[0] for x in stag])):
+        if o != tag:
+            found.append(("fragments:" + op.split()[0], "kat\n%s\n%s\n" % (op, tag),
+                          "tag of the fragmented Step interface differs from the tag of Wrap (%s): %s -> %s, Wrap gave %s" % (wop[:80], op[:140], o, tag)))
     of = run([f[0] for f in forged])
     for (op, exp, kind), o in zip(forged, of):
         if not o.startswith(exp + " "):
@@ -636,9 +703,73 @@ def search(ctx, exe, w, n=150, focus=None):
     for _ in range(20):
         a, b = rng.getrandbits(128), rng.getrandbits(128)
         hops.append("pmul %s %s" % (le(a, 16), le(b, 16))); hexp.append(le(gfmul(a, b), 16))
+    for _ in range(40):
+        mod = rng.choice([2, 10, 255, 256, 257, 65535, rng.randint(2, 65535)])
+        cnt = rng.choice([1, 2, 7, 30, 41, 45, 60, rng.randint(1, 150)])
+        b = max(1, calc_b_exact(mod, cnt))
+        digs = [rng.randrange(mod) for _ in range(cnt)]
+        if rng.random() < 0.3:
+            digs = [mod - 1] * cnt
+        val = sum(d * mod ** i for i, d in enumerate(digs))
+        hops.append("s2b %d %d %s" % (b, mod, _u16(digs))); hexp.append(le(val, 8 * b))
+        binv = rng.getrandbits(64 * (b + 1))
+        a, add, sub = binv, [], []
+        for d in digs:
+            add.append((a % mod + d) % mod); sub.append((d - a % mod) % mod); a //= mod
+        hops.append("b2s A %d %s %s" % (mod, _u16(digs), le(binv, 8 * (b + 1)))); hexp.append(_u16(add))
+        hops.append("b2s S %d %s %s" % (mod, _u16(digs), le(binv, 8 * (b + 1)))); hexp.append(_u16(sub))
     for op, e, o in zip(hops, hexp, run(hops)):
         if o != e:
             found.append(("helper:" + op.split()[0], "kat\n%s\n%s\n" % (op, e), "%s -> %s, exact arithmetic gives %s" % (op, o, e)))
+    # 4c. one-shot == fragmented (streaming bundles), HMAC key padding identity, PBKDF2 == iterated HMAC
+    sops, sexp = [], []          # (op, function of its output) pairs: both sides are implementation outputs
+    pairs = []
+    for _ in range(30):
+        k, iv = g.key(), g.rb(16)
+        m = g.rb(rng.randint(1, 90))
+        parts = " ".join(hx(c) for c in g.split(m, maxparts=5))
+        pairs.append(("cfbS E %s %s %s" % (hx(k), hx(iv), parts), "cfb E %s %s %s" % (hx(k), hx(iv), hx(m)), "stream"))
+        pairs.append(("ctrS %s %s %s" % (hx(k), hx(iv), parts), "ctr %s %s %s" % (hx(k), hx(iv), hx(m)), "stream2"))
+        pairs.append(("macS %s %s G" % (hx(k), parts), "mac %s %s" % (hx(k), hx(m)), "tag"))
+        pairs.append(("hashS %s G" % parts, "hash %s" % hx(m), "tag"))
+        pairs.append(("hmacS %s %s G" % (hx(k), parts), "hmac %s %s" % (hx(k), hx(m)), "tag"))
+        ct = None
+        pairs.append(("cfbS D %s %s %s" % (hx(k), hx(iv), parts), "cfb D %s %s %s" % (hx(k), hx(iv), hx(m)), "stream"))
+    oa = run([p[0] for p in pairs])
+    ob = run([p[1] for p in pairs])
+    for (a, b, kind), x, y in zip(pairs, oa, ob):
+        t = x.split()
+        if kind == "stream":
+            got = "".join(c for c in t[:-1] if c != "-")
+        elif kind == "stream2":
+            got = "".join(c for c in t[:-2] if c != "-")
+        else:
+            got = t[-1] if t else ""
+        want = y.split()[1] if len(y.split()) > 1 else y
+        if got != want.replace("-", ""):
+            found.append(("fragments:" + a.split()[0], "same\n%s\n%s\n%s\n" % (a, b, kind),
+                          "fragmented processing differs from one-shot: %s -> %s ; %s -> %s" % (a[:120], x[:60], b[:80], y[:60])))
+    hp = []
+    for n in (0, 5, 16, 31):
+        kk = g.rb(n) if n else b""
+        m = g.rb(rng.randint(0, 40))
+        hp.append(("hmac %s %s" % (hx(kk), hx(m)), "hmac %s %s" % (hx(kk + bytes(32 - n)), hx(m))))
+    o1h, o2h = run([a for a, _ in hp]), run([b for _, b in hp])
+    for (a, b), x, y in zip(hp, o1h, o2h):
+        if x != y:
+            found.append(("hmac:keypad", "same\n%s\n%s\nexact\n" % (a, b), "HMAC(K) != HMAC(K || 0..0) for |K| <= 32: %s -> %s ; %s -> %s" % (a[:80], x[:40], b[:80], y[:40])))
+    for it in (1, 2, 5):
+        pwd, salt = g.rb(rng.choice((3, 32, 40))), g.rb(rng.choice((0, 8, 33)))
+        u = run(["hmac %s %s" % (hx(pwd), hx(salt + b"\0\0\0\1"))])[0].split()[1]
+        acc = int(u, 16)
+        for _ in range(it - 1):
+            u = run(["hmac %s %s" % (hx(pwd), u)])[0].split()[1]
+            acc ^= int(u, 16)
+        want = "ok %064x" % acc
+        op = "pbkdf %s %d %s" % (hx(pwd), it, hx(salt))
+        o = run([op])[0]
+        if o != want:
+            found.append(("pbkdf:iter", "expect\n%s\n%s\n" % (op, want), "PBKDF2 is not the xor of %d iterated HMACs: %s -> %s, expected %s" % (it, op[:100], o[:50], want[:50])))
     # 5. FMT block count against exact integers
     pts = fmt_points(rng, False)[:400]
     ob = run(["fmtB %d %d" % p for p in pts])
@@ -724,7 +855,8 @@ def run(ctx):
     focus = None
     if mism_all:
         focus = mism_all[0][3].split()[0].rstrip("S").lower() if mism_all[0][2] >= 0 else None
-    found = search(ctx, exe, w, n=400 if (mism_all or not proof_ok) else 120, focus=focus)
+    found = search(ctx, exe, w, n=400 if (mism_all or not proof_ok) else 120, focus=focus,
+                   differing=[(m[3], m[4]) for m in mism_all if m[2] >= 0])
     if ctx.tier == "thorough":
         total, bad, mm = fmt_table_sweep(ctx, exe, have_driver)
         ctx.cov["fmt_table_points"] = total
@@ -804,6 +936,19 @@ def replay(ctx, path):
         o2 = run1(lines[2])
         print("%s\n -> %s\n%s\n -> %s\n expected %s : %s" % (lines[1][:200], o1[:200], lines[2][:200], o2[:200], lines[3][:200], "holds" if o2 == lines[3] else "VIOLATED"))
         return 0 if o2 == lines[3] else 1
+    if kind == "same":
+        x, y = run1(lines[1]), run1(lines[2])
+        t = x.split()
+        if lines[3] == "stream":
+            got, want = "".join(c for c in t[:-1] if c != "-"), (y.split() + ["", ""])[1].replace("-", "")
+        elif lines[3] == "stream2":
+            got, want = "".join(c for c in t[:-2] if c != "-"), (y.split() + ["", ""])[1].replace("-", "")
+        elif lines[3] == "tag":
+            got, want = (t[-1] if t else ""), (y.split() + ["", ""])[1]
+        else:
+            got, want = x, y
+        print("%s\n -> %s\n%s\n -> %s\n same result: %s" % (lines[1][:200], x[:200], lines[2][:200], y[:200], "holds" if got == want else "VIOLATED"))
+        return 0 if got == want else 1
     if kind == "diff":
         o = run1(lines[1])
         print("%s\n impl  %s\n model %s : %s" % (lines[1][:200], o[:200], lines[2][:200], "agree" if o == lines[2] else "DIFFER"))
